@@ -768,7 +768,7 @@ func c11Scenario(in c11Input) (rec Record) {
 		cacheT = "(Some " + coqList(ents) + ")"
 	}
 	now0 := time.Now().Unix()
-	st, err := setec.NewStore(context.Background(), setec.StoreConfig{
+	st, err := newStoreReleased(context.Background(), setec.StoreConfig{
 		Client: r.svc, Secrets: append([]string(nil), in.Names[:in.NDecl]...), AllowLookup: in.Allow, Cache: r.cache,
 		ExpiryAge: time.Duration(in.AgeS) * time.Second, PollTicker: r.tick, Logf: func(string, ...any) {},
 	})
@@ -850,7 +850,7 @@ func c11Cadence(in c11Input) Record {
 	svc := c11NewSvc()
 	svc.put("d0")
 	t0 := time.Now().UnixNano()
-	st, err := setec.NewStore(context.Background(), setec.StoreConfig{
+	st, err := newStoreReleased(context.Background(), setec.StoreConfig{
 		Client: svc, Secrets: []string{"d0"}, PollInterval: time.Duration(in.IntervalNs), Logf: func(string, ...any) {},
 	})
 	if err != nil {
@@ -912,7 +912,7 @@ func c11CadenceSlow(in c11Input) Record {
 		return time.Duration(int64(in.Fracs[poll]) * (i / 1000) / int64(n))
 	}
 	t0 := time.Now().UnixNano()
-	st, err := setec.NewStore(context.Background(), setec.StoreConfig{
+	st, err := newStoreReleased(context.Background(), setec.StoreConfig{
 		Client: svc, Secrets: names, PollInterval: time.Duration(in.IntervalNs), Logf: func(string, ...any) {},
 	})
 	if err != nil {
@@ -985,7 +985,7 @@ func c11CacheWrite(in c11Input) (rec Record) {
 	}
 	const now0 = int64(1700000000)
 	clock := func() time.Time { return time.Unix(now0, 0) }
-	st, err := setec.NewStore(context.Background(), setec.StoreConfig{
+	st, err := newStoreReleased(context.Background(), setec.StoreConfig{
 		Client: r.svc, Secrets: append([]string(nil), in.Names[:in.NDecl]...), AllowLookup: true, Cache: r.cache,
 		PollTicker: r.tick, TimeNow: clock, Logf: func(string, ...any) {},
 	})
@@ -1302,7 +1302,7 @@ func c11NewPlainRun(names []string, extraPuts int) (r *c11Run, head func(steps [
 		nameT = append(nameT, coqBytes([]byte(n)))
 	}
 	now0 := time.Now().Unix()
-	r.st, err = setec.NewStore(context.Background(), setec.StoreConfig{
+	r.st, err = newStoreReleased(context.Background(), setec.StoreConfig{
 		Client: r.svc, Secrets: append([]string(nil), names...), Cache: r.cache, PollTicker: r.tick, Logf: func(string, ...any) {},
 	})
 	if err != nil {
